@@ -61,28 +61,34 @@ type run struct {
 	rng     *rand.Rand
 	netMode bool // deliveries go resolver -> MultiDataInterceptor (end to end)
 
-	wait   time.Duration // pause between two sync iterations
-	poison [][2]int      // self-test only: content of node [1] stored in the cache under the hash of node [0]
+	wait   time.Duration     // pause between two sync iterations
+	dbInit map[string][]byte // resumption: the destination DB as an earlier run left it (db0 = its key ids)
+	poison [][2]int          // self-test only: content of node [1] stored in the cache under the hash of node [0]
 
-	cache   storage.Cacher // the real cache
-	rec     *putRecorder   // the cache as the interceptor processor sees it
-	proc    *processor.TrieNodeInterceptorProcessor
-	dbm     map[string][]byte
-	syncer  syncerIface
-	cancel  context.CancelFunc
-	mu      sync.Mutex
-	events  []event
-	pos     int // syncer interactions so far
-	si      int // next schedule entry
-	idle    int // requests since the schedule ran dry (silent tail)
-	rounds  int // requests answered in the honest tail
-	pendGet []byte
-	extra   map[string]int // hashes that are not nodes of the shape -> ids above N
-	invSeq  int
-	res     string
-	err     error
-	hung    bool
-	net     *netPath
+	cache    storage.Cacher // the real cache
+	rec      *putRecorder   // the cache as the interceptor processor sees it
+	proc     *processor.TrieNodeInterceptorProcessor
+	dbm      map[string][]byte
+	syncer   syncerIface
+	cancel   context.CancelFunc
+	mu       *sync.Mutex // one lock per environment (shared by the two syncers of a duo)
+	peer     *run        // duo: the other syncer working on the same cache and DB
+	events   []event
+	pos      int // syncer interactions so far
+	si       int // next schedule entry
+	idle     int // requests since the schedule ran dry (silent tail)
+	rounds   int // requests answered in the honest tail
+	pendGet  []byte
+	extra    map[string]int // hashes that are not nodes of the shape -> ids above N
+	invSeq   int
+	nDeliv   int
+	res      string
+	err      error
+	hung     bool
+	done     bool
+	deferred []event
+	v        *verdict
+	net      *netPath
 }
 
 // ---------------------------------------------------------------- ids
@@ -120,6 +126,37 @@ func (r *run) contentID(val []byte) int {
 
 func (r *run) log(a string, in, out M) {
 	r.events = append(r.events, event{a, in, out})
+	if r.peer == nil || r.peer.done {
+		return
+	}
+	// what this syncer does to the shared cache and DB is, for the other one, an action of its environment
+	p := r.peer
+	var e *event
+	switch {
+	case a == "Deliver" || a == "Evict":
+		e = &event{a, in, out}
+	case a == "Get" && out["src"] == "cache":
+		e = &event{"Evict", M{"h": in["h"]}, M{"x": 0}}
+	case a == "Put":
+		// a DB write: visible to the second half (DB part) of a lookup the peer has under way
+		p.events = append(p.events, event{"Store", M{"k": in["k"]}, M{"c": out["c"]}})
+		return
+	}
+	if e == nil {
+		return
+	}
+	if p.pendGet != nil {
+		// the peer is between the cache part and the DB part of one getNodeFromStorage: the cache part came first
+		p.deferred = append(p.deferred, *e)
+		return
+	}
+	p.events = append(p.events, *e)
+}
+
+// gotLogged is called right after the Get event of a two-part lookup was logged
+func (r *run) gotLogged() {
+	r.events = append(r.events, r.deferred...)
+	r.deferred = nil
 }
 
 // ---------------------------------------------------------------- the adversary / the network
@@ -153,6 +190,15 @@ func (r *run) invalidBytes() []byte {
 	}
 }
 
+// altEncoding returns other bytes with the same content: the protobuf body is followed by a field the node
+// messages do not have (number 15, varint), which decoders skip. The node these bytes decode to is the same node,
+// so -- "a node is only ever used for the hash of its own content" -- it belongs under the same hash.
+func altEncoding(ser []byte) []byte {
+	b := append([]byte(nil), ser[:len(ser)-1]...)
+	b = append(b, 0x78, 0x01)
+	return append(b, ser[len(ser)-1])
+}
+
 // intercept pushes bytes through the real interceptor path; the key is the one the processor really stored under
 func (r *run) intercept(buff []byte) (bool, []byte) {
 	r.rec.take()
@@ -177,6 +223,10 @@ func (r *run) deliver(x int) {
 	var buff []byte
 	if x >= 1 && x <= len(r.sh.nodes) {
 		buff = r.sh.nodes[x-1].bytes
+		r.nDeliv++
+		if r.nDeliv%5 == 0 {
+			buff = altEncoding(buff)
+		}
 	} else {
 		x = 0
 		buff = r.invalidBytes()
@@ -216,12 +266,19 @@ func (r *run) point() {
 		}
 	}
 	r.pos++
+	if r.pos > 60000 {
+		// a run that neither completes nor asks for anything any more (possible after a change of the code):
+		// end it instead of spinning until the watchdog
+		r.hung = true
+		r.cancel()
+	}
 }
 
 func (r *run) flushGet() {
 	if r.pendGet != nil {
 		r.log("Get", M{"h": r.id(r.pendGet)}, M{"src": "miss"})
 		r.pendGet = nil
+		r.gotLogged()
 	}
 }
 
@@ -255,6 +312,7 @@ func (d *logDB) Get(key []byte) ([]byte, error) {
 	} else {
 		d.r.point()
 	}
+	defer d.r.gotLogged()
 	v, ok := d.r.dbm[string(key)]
 	if !ok {
 		d.r.log("Get", M{"h": d.r.id(key)}, M{"src": "miss"})
@@ -325,24 +383,42 @@ func (h *reqHandler) RequestTrieNodes(_ uint32, hashes [][]byte, _ string) {
 
 // ---------------------------------------------------------------- running
 
-func (r *run) start() {
+// prepare creates the environment of a run (cache, interceptor processor, DB) unless it was handed one (duo)
+func (r *run) prepare() {
 	var err error
-	var c storage.Cacher
-	c, err = lrucache.NewCache(10000)
-	if err != nil {
-		panic(err)
+	if r.mu == nil {
+		r.mu = &sync.Mutex{}
 	}
-	r.cache = c
-	r.rec = &putRecorder{Cacher: c}
-	r.proc, err = processor.NewTrieNodesInterceptorProcessor(r.rec)
-	if err != nil {
-		panic(err)
+	if r.cache == nil {
+		r.cache, err = lrucache.NewCache(10000)
+		if err != nil {
+			panic(err)
+		}
+		r.rec = &putRecorder{Cacher: r.cache}
+		r.proc, err = processor.NewTrieNodesInterceptorProcessor(r.rec)
+		if err != nil {
+			panic(err)
+		}
+	}
+	if r.dbm != nil {
+		return
 	}
 	r.dbm = map[string][]byte{}
-	for _, id := range r.db0 {
-		n := r.sh.nodes[id-1]
-		r.dbm[string(n.hash)] = append([]byte(nil), n.bytes...)
+	if r.dbInit != nil {
+		for k, v := range r.dbInit {
+			r.dbm[k] = append([]byte(nil), v...)
+		}
+	} else {
+		for _, id := range r.db0 {
+			n := r.sh.nodes[id-1]
+			r.dbm[string(n.hash)] = append([]byte(nil), n.bytes...)
+		}
 	}
+}
+
+func (r *run) start() {
+	r.prepare()
+	c := r.cache
 	arg := trie.ArgTrieSyncer{
 		Marshalizer:                    marsh,
 		Hasher:                         hasher,
@@ -411,7 +487,12 @@ func (r *run) start() {
 	default:
 		r.res = "error"
 	}
+	r.v = r.finishLocked()
+	r.done = true
 }
+
+// finish returns the verdict of the oracle (evaluated, and the Return event logged, when StartSyncing returned)
+func (r *run) finish() *verdict { return r.v }
 
 // dbKeys returns the sorted ids of the DB keys
 func (r *run) dbKeys() []int {
@@ -512,8 +593,8 @@ func (r *run) recreate() (bool, string) {
 	return true, ""
 }
 
-// finish evaluates the oracle, logs the Return event and returns a violation if the property is false
-func (r *run) finish() *verdict {
+// finishLocked evaluates the oracle, logs the Return event and returns a violation if the property is false
+func (r *run) finishLocked() *verdict {
 	var v *verdict
 	rec := "na"
 	if r.res == "ok" {
@@ -534,8 +615,12 @@ func (r *run) finish() *verdict {
 }
 
 func (r *run) newEvent() event {
-	faults := []string{"cancel", "timeout", "evict", "lose"}
-	return event{"New", M{"shape": M{"name": r.sh.spec.Name, "ch": r.sh.ch(), "root": 1}, "cap": r.cap, "algo": r.algo,
+	faults := []string{"cancel", "timeout", "evict", "lose", "shared"}
+	root := 1
+	if r.sh.viewRoot != 0 {
+		root = r.sh.viewRoot
+	}
+	return event{"New", M{"shape": M{"name": r.sh.spec.Name, "ch": r.sh.ch(), "root": root}, "cap": r.cap, "algo": r.algo,
 		"faults": faults, "db0": append([]int{}, r.db0...)}, M{"x": 0}}
 }
 
